@@ -657,6 +657,10 @@ let rec rd_ty (t : toks) : ty =
   | "U8" -> TyInt U8 | "U16" -> TyInt U16 | "U32" -> TyInt U32 | "U64" -> TyInt U64
   | "F32" -> TyF32 | "F64" -> TyF64 | "C" -> TyChar | "Str" -> TyString | "Unit" -> TyUnit
   | "O" -> TyOption (rd_ty t)
+  | "US" -> TyUnitStruct (bytes_of_hex (next t))
+  | "NT" -> TyNewtype (rd_ty t)
+  | "TS" -> let n = int_of_string (next t) in TyTupleStruct (tys n)
+  | "By" -> TyBytes
   | "T" -> let n = int_of_string (next t) in TyTuple (tys n)
   | "V" -> TyVec (rd_ty t)
   | "M" -> let k = rd_ty t in let v = rd_ty t in TyMap (k, v)
